@@ -102,7 +102,7 @@ class Scenario:
     DEFAULTS = dict(
         htlcs=None, invoices=None, policy=None, cltv_delta=None, mpp_timeout_s=60, allow_self=True,
         store_init='free', max_parts=1, pay_outcomes=('complete', 'failed'), faults=0, fault_methods=(),
-        fault_codes=((-1, 'Rpc'),), write_faults=0, crash=0, timers=True, spurious=False, xpay=False,
+        fault_codes=((-1, 'Rpc'),), write_faults=0, crash=0, crash_after_pays=0, pay_seq=None, crash_reduced=True, crash_needs_live_part=False, timers=True, spurious=False, xpay=False,
         height=None, blocks=0, wait_fail_codes=(204,), deliver_in_order=True, payee_releases=True,
         rng_free=True, max_total_parts=3, parts_can_fail=True, deliver_after_response=False, eager_tasks=False, strict_por=False,
     )
@@ -123,6 +123,7 @@ class Scenario:
         st = m.st
         env = ScenEnv()
         env.max_parts = cfg['max_parts']
+        env.pay_seq = cfg['pay_seq']
         env.pay_outcomes = cfg['pay_outcomes']
         env.fault_budget = cfg['faults']
         env.fault_methods = cfg['fault_methods']
@@ -269,7 +270,8 @@ class Scenario:
         pending = [s for s in specs if s.idx not in st.roots['delivered']]
         if pending and cfg['deliver_after_response']:
             ep = st.roots['epoch']
-            if any((ep, k) not in st.roots.get('decided', {}) and (ep, k) not in st.roots['responses'] for k in st.roots['delivered']):
+            if any((ep, k) not in st.roots.get('decided', {}) and (ep, k) not in st.roots['responses']
+                   for k in st.roots['delivered'] if (ep, k) in st.roots.get('reqs', {})):
                 pending = []
         if pending:
             cands = pending[:1] if cfg['deliver_in_order'] else pending
@@ -282,7 +284,9 @@ class Scenario:
                     out.append(('fire ' + t.label, self._fire(t.label)))
         if cfg['blocks'] and st.roots.get('blocks_done', 0) < cfg['blocks']:
             out.append(('block arrives', self._block))
-        if cfg['crash'] and st.env.crashed < cfg['crash'] and st.roots['delivered']:
+        if cfg['crash'] and st.env.crashed < cfg['crash'] and st.roots['delivered'] and (st.roots.get('crash_ok') or not cfg['crash_reduced']) and \
+                len([c for c in st.env.calls if c.method == 'pay']) >= cfg['crash_after_pays'] and \
+                (not cfg['crash_needs_live_part'] or any(p.status == 'pending' for p in st.env.parts)):
             out.append(('CRASH', self._crash))
         return out
 
@@ -461,6 +465,15 @@ class Scenario:
                 finished.append((k, resp))
         new = st.events[st.roots['ev_seen']:]
         st.roots['ev_seen'] = len(st.events)
+        # crash-point reduction (DESIGN 3.4): a crash loses everything inside the plugin, so what follows it depends only
+        # on the node's state (datastore, parts, height) and on which HTLCs were answered.  A crash is therefore offered
+        # only at the first environment choice after a step that changed one of those; a crash anywhere else equals the
+        # crash at the latest such point (calls in flight at a crash never land in this model either way).
+        if self.cfg['crash']:
+            if label.startswith(('lin datastore#', 'pay#', 'part', 'block arrives')) or finished:
+                st.roots['crash_ok'] = True
+            elif not label.startswith('poll '):
+                st.roots['crash_ok'] = False
         for ev in new:
             if ev[0] == 'oneshot_new':
                 k = st.roots['task_of'].get(ev[2])
